@@ -8,6 +8,7 @@ CONSTANTS Alpha,       \* code points strings are made of
           IntRange,    \* set of integers
           MaxItems,    \* longest list / dict
           Depth,       \* 1: containers of atoms; 2: containers of (small) depth-1 values
+          MaxSrc,      \* longest list of cdef sources in a key
           Mode         \* "values" | "keys" | "dump"
 VARIABLES st
 Seqs(E, n) == UNION {[1..k -> E] : k \in 0..n}
@@ -42,7 +43,7 @@ DictOrder == (st.mode = "v" /\ st.x.t = "d" /\ Len(st.x.v) = 2) =>
 KAlpha == Alpha
 KStr == Seqs(KAlpha, 2)
 KKwds == {[t |-> "d", v |-> <<>>]} \cup Dicts(Keys1, Strs(1), 1)
-KeyInputs == IF Mode = "keys" THEN [pre : KStr, kw : KKwds, src : Seqs(KStr, 2)] ELSE {}
+KeyInputs == IF Mode = "keys" THEN [pre : KStr, kw : KKwds, src : Seqs(KStr, MaxSrc)] ELSE {}
 Ver == <<51, 46, 49>>                   \* "3.1"
 KeyRoundTrip == st.mode = "k" =>
     LET u == UnKey(Key(Ver, Ver, st.x.pre, st.x.kw, st.x.src)) IN
